@@ -99,6 +99,19 @@ Theorem C04_kept_slot_is_the_buffer_when_nothing_grew : forall nc h b bs h' b' s
   Buffer.arr b' = Buffer.arr b /\ Buffer.off b' = Buffer.off b /\ Buffer.sread h' s = Buffer.sread h s.
 Proof. exact BufferRefine.retained_slice_if_room. Qed.
 
+(* ... and the encoders' pattern as a whole: remember Len(), write a placeholder, write the body in any number of pieces
+   (the buffer may slide or move at any of them), then patch through buf.Bytes()[pos:pos+k]: whatever state the buffer
+   was in, it then holds what it held, the length bytes, and the body *)
+Theorem C04_frame_pattern_on_any_buffer : forall nc0 placeholder lenbytes ws s s1,
+  BufferRefine.WF (Buffer.st_h s) (Buffer.st_b s) -> List.length placeholder = List.length lenbytes ->
+  Buffer.bsteps s (Buffer.BWrite nc0 placeholder :: map (fun w => Buffer.BWrite (fst w) (snd w)) ws) = Some s1 ->
+  let pos := Buffer.unread (Buffer.st_b s) in
+  let h' := Buffer.swrite (Buffer.st_h s1) (Buffer.sub (Buffer.bytes_of (Buffer.st_b s1)) pos (pos + List.length lenbytes)%nat) lenbytes in
+  BufferRefine.WF h' (Buffer.st_b s1) /\
+  Buffer.contents h' (Buffer.st_b s1) = Buffer.contents (Buffer.st_h s) (Buffer.st_b s) ++ lenbytes ++ concat (map snd ws).
+Proof. exact BufferRefine.frame_pattern. Qed.
+
+Print Assumptions C04_frame_pattern_on_any_buffer.
 Print Assumptions C04_backfill_through_fresh_slice_is_update.
 Print Assumptions C04_kept_slot_is_the_buffer_when_nothing_grew.
 Print Assumptions C04_frame_body_length.
